@@ -44,6 +44,18 @@ def unescape (r : Reader) : M Reader := do
 
 def isEscaped (r : Reader) : Bool := r.escaped == some r.pos
 
+/-- `reader.insertExpansion(lines, maxDepth)` -/
+def insertExpansion (r : Reader) (lines : List Str) (maxDepth : Nat) : M (Bool × Reader) :=
+  let exps := r.expansions.dropWhile fun e => r.pos ≥ e
+  if exps.length ≥ maxDepth then pure (false, { r with expansions := exps })
+  else
+    match r.rest with
+    | [] => raise (.indexError "reader.lines[pos:pos]")
+    | c :: t =>
+      let n := lines.length
+      pure (true, { r with rest := c :: (lines ++ t),
+                           expansions := (r.pos + 1 + n) :: exps.map (· + n) })
+
 /-- `reader.readTo(regexp)` -/
 def readTo (r : Reader) (p : Pat) : M (List Str × Reader) :=
   go r.rest r.pos []
@@ -335,9 +347,10 @@ def verifyMacroLine (rec : Rec) (env : Env) (mt : Match) (reader : Reader) : M (
   if (Gen.P.macros_DEF_OPEN.search whole).isSome then return (false, reader)
   let value ← macrosRender rec env whole true
   if startsWith value whole || contains value ("\n".toList ++ whole) then return (false, reader)
-  match reader.rest with
-  | [] => raise (.indexError "reader.lines[pos:pos]")
-  | c :: t => return (true, { reader with rest := c :: (splitChar value '\n' ++ t) })
+  let (ok, reader) ← reader.insertExpansion (splitChar value '\n') Gen.maxExpansionDepth
+  if !ok then
+    errorCallback ("macro expansion nesting limit exceeded: ".toList ++ whole)
+  return (ok, reader)
 
 def lineFilter (rec : Rec) (env : Env) (d : LineDef) (mt : Match) : M Str := do
   match d.filter with
